@@ -7,6 +7,8 @@ package c10
 import (
 	"fmt"
 	"math/big"
+	"regexp"
+	"strconv"
 	"strings"
 )
 
@@ -248,4 +250,23 @@ func fixedByName(name string) *fixedProg {
 		}
 	}
 	return nil
+}
+
+var paramRef = regexp.MustCompile(`\ba[0-9]+\b`)
+
+// rotateParams rewrites the body of a hand-written program so that it refers
+// to parameter a[(i+rot) mod n] where it referred to a[i]; the parameter list
+// itself is unchanged.
+func rotateParams(src string, n, rot int) string {
+	if rot == 0 {
+		return src
+	}
+	i := strings.Index(src, "{\n")
+	if i < 0 {
+		return src
+	}
+	return src[:i] + paramRef.ReplaceAllStringFunc(src[i:], func(m string) string {
+		k, _ := strconv.Atoi(m[1:])
+		return fmt.Sprintf("a%d", (k+rot)%n)
+	})
 }
